@@ -62,7 +62,9 @@ type scenario struct {
 
 var storeCertRange uint64 = 9
 
-// prefixChain: the common start of all shape chains: the validators go online (status switch block), one identity is killed.
+// prefixChain: the common start of all shape chains: four validators go online (status switch block), one identity is killed.
+// The shape's identity-update blocks kill the online validators one by one, so that every such block changes the committee and
+// the vote threshold the following certificates are checked against.
 func prefixChain(seed int64, nShape int) *canon {
 	w := newWorld(seed, 16)
 	L := uint64(7)
@@ -70,19 +72,19 @@ func prefixChain(seed int64, nShape int) *canon {
 	rnd := rand.New(rand.NewSource(seed))
 	c := newCanon(w, rnd, ownKey)
 	var txs []*types.Transaction
-	for k := 0; k <= 5; k++ {
+	for k := 0; k <= 3; k++ {
 		txs = append(txs, c.onlineTx(k, true))
 	}
 	c.add(false, txs, true)                                                                       // 2
 	c.add(false, []*types.Transaction{c.tx(6, types.SendTx, &w.Addrs[ownKey], 3, nil, 0)}, false) // 3
 	c.add(true, nil, false)                                                                       // 4
-	c.add(false, nil, true)                                                                       // 5: status switch, the six go online
+	c.add(false, nil, true)                                                                       // 5: status switch, the four go online
 	c.add(false, []*types.Transaction{c.tx(9, types.KillTx, nil, 0, nil, 0)}, true)               // 6
 	c.add(false, []*types.Transaction{c.tx(ownKey, types.SendTx, &w.Addrs[6], 2, nil, 0)}, false) // 7
 	if c.head() != L {
 		panic("prefix length")
 	}
-	if !c.info[5].Diff || !c.info[6].Diff || c.prop.App.ValidatorsCache.OnlineSize() != 6 {
+	if !c.info[5].Diff || !c.info[6].Diff || c.prop.App.ValidatorsCache.OnlineSize() != 4 {
 		panic(fmt.Sprintf("driver: prefix chain is not what the scenarios assume: %+v %+v online=%d", c.info[5], c.info[6], c.prop.App.ValidatorsCache.OnlineSize()))
 	}
 	c.saveCopy()
@@ -235,7 +237,7 @@ func longChain(seed int64, n int) *canon {
 					delegated[k] = true
 				}
 			}
-			c.add(false, txs, keep)
+			c.add(false, txs, keep || h == uint64(n))
 		}
 		if copyAt[c.head()] {
 			c.saveCopy()
@@ -281,8 +283,10 @@ func sortedKeys(m map[string]map[string]string) []string {
 func (r *runCtx) badManifest(kind string, S uint64) *snapshot.Manifest {
 	good := r.c.manifests[S]
 	var data []byte
+	root := good.manifest.Root
 	switch kind {
 	case "snap-otherheight":
+		// the archive of another height, announced for height S with the root it really has
 		var other *manRec
 		for h, m := range r.c.manifests {
 			if h != S && (other == nil || h > other.height) {
@@ -292,12 +296,13 @@ func (r *runCtx) badManifest(kind string, S uint64) *snapshot.Manifest {
 		if other == nil {
 			// no other snapshot on this chain: export the reference state one block earlier
 			var buf bytes.Buffer
-			if _, err := r.c.ref.App.State.WriteSnapshot2(S-1, &buf); err != nil {
+			rt, err := r.c.ref.App.State.WriteSnapshot2(S-1, &buf)
+			if err != nil {
 				panic(err)
 			}
-			data = buf.Bytes()
+			data, root = buf.Bytes(), rt
 		} else {
-			data = other.data
+			data, root = other.data, other.manifest.Root
 		}
 	case "snap-truncated":
 		data = append([]byte(nil), good.data[:512+(len(good.data)-512)/4]...)
@@ -317,16 +322,12 @@ func (r *runCtx) badManifest(kind string, S uint64) *snapshot.Manifest {
 		c, _ = r.c.propIpfs.Cid([]byte(fmt.Sprintf("nowhere-%d-%d", S, r.seq)))
 	}
 	badManifests[fmt.Sprintf("%s@%d", c.String(), S)] = kind
-	return &snapshot.Manifest{Height: S, Root: good.manifest.Root, CidV2: c.Bytes()}
+	return &snapshot.Manifest{Height: S, Root: root, CidV2: c.Bytes()}
 }
 
-// run executes one scenario: the scripted steps, then an honest completion, the tail and the final comparison.
-func (r *runCtx) run(sc *scenario, L, S, T uint64, db dbm.DB) {
-	r.seq++
-	sid := fmt.Sprintf("%s%d", r.kind[:1], r.seq)
-	r.chainLine(sid, sc, L, S, T)
-	// a panic inside the repository's code while syncing is an observation, a panic of the driver is not
-	defer func() {
+// guard: a panic inside the repository's code while syncing is an observation, a panic of the driver is not
+func (r *runCtx) guard(sid string) func() {
+	return func() {
 		if e := recover(); e != nil {
 			msg := fmt.Sprint(e)
 			if strings.HasPrefix(msg, "driver:") {
@@ -344,7 +345,15 @@ func (r *runCtx) run(sc *scenario, L, S, T uint64, db dbm.DB) {
 			}
 			r.out.Emit(tr.M{"ev": "Panic", "sid": sid, "msg": msg, "stack": st})
 		}
-	}()
+	}
+}
+
+// run executes one scenario: the scripted steps, then an honest completion, the tail and the final comparison.
+func (r *runCtx) run(sc *scenario, L, S, T uint64, db dbm.DB) {
+	r.seq++
+	sid := fmt.Sprintf("%s%d", r.kind[:1], r.seq)
+	r.chainLine(sid, sc, L, S, T)
+	defer r.guard(sid)()
 	s := newSyncNode(r.c, ownKey, sim.CopyDB(db), S, r.out, sid)
 	if s.L != L {
 		panic(fmt.Sprintf("driver: syncing node starts at %d, expected %d", s.L, L))
@@ -588,9 +597,20 @@ func randomScenario(rnd *rand.Rand, c *canon, id int) (*scenario, uint64, uint64
 	N := int(S - L)
 	sc := &scenario{Id: fmt.Sprintf("r%d", id), Plans: map[string]map[string]string{"A": {}, "B": {}, "C": {}}, Mans: map[string]string{}, Class: "random"}
 	nf := rnd.Intn(4)
+	// half of the faults aim at the blocks where they matter (certificate-mandatory blocks, blocks with an identity diff)
+	var hot []int
+	for h := L + 1; h <= S; h++ {
+		if c.info[h].Need || c.info[h].Diff {
+			hot = append(hot, int(h-L))
+		}
+	}
 	for i := 0; i < nf; i++ {
 		p := []string{"A", "B", "A"}[rnd.Intn(3)]
-		sc.Plans[p][fmt.Sprint(1+rnd.Intn(N))] = blockFaults[rnd.Intn(len(blockFaults))]
+		at := 1 + rnd.Intn(N)
+		if rnd.Intn(2) == 0 {
+			at = hot[rnd.Intn(len(hot))]
+		}
+		sc.Plans[p][fmt.Sprint(at)] = blockFaults[rnd.Intn(len(blockFaults))]
 	}
 	if rnd.Intn(4) == 0 {
 		sc.Mans["A"] = manFaults[rnd.Intn(len(manFaults))]
@@ -627,6 +647,7 @@ func randomScenario(rnd *rand.Rand, c *canon, id int) (*scenario, uint64, uint64
 func main() {
 	cases := flag.String("cases", "", "scenario file exported by TLC")
 	nRandom := flag.Int("random", 0, "number of seeded random scenarios on the long chain")
+	nDown := flag.Int("downloader", 0, "of the random scenarios, how many run the repository's whole Downloader instead of the step-wise applier")
 	chainLen := flag.Int("len", 70, "length of the long chain")
 	outPath := flag.String("out", "trace.ndjson", "trace file")
 	tail := flag.Int("tail", 3, "blocks applied normally after the switch")
@@ -702,9 +723,16 @@ func main() {
 			rr := *r
 			rr.c = c.upTo(t)
 			rr.seq = r.seq
-			rr.run(sc, L, S, t, db)
+			if i < *nDown {
+				rr.kind = "downloader"
+				rr.c = c
+				rr.runDownloader(sc, L, S, T, db)
+				stats["downloader"]++
+			} else {
+				rr.run(sc, L, S, t, db)
+				stats["random"]++
+			}
 			r.seq = rr.seq
-			stats["random"]++
 		}
 	}
 	sb, _ := json.Marshal(stats)
